@@ -110,6 +110,10 @@ ShiftItems(items, d) == [i \in 1..Len(items) |-> IF items[i].k = "e" THEN [items
 
 Obs(ev) == [res |-> ev.res, ml |-> ev.ml, ma |-> ev.ma, read |-> ev.read, written |-> ev.written, out |-> ev.out]
 
+\* conjuncts that depend on the event alone; they are also reported when the event is rejected by an earlier rule
+\* (a wrong byte inside the written prefix that is a stale byte of the destination is both C02.prefix and C18)
+IndepTags(ev) == Tags(<< <<\E i \in 1..Len(ev.alt) : ev.alt[i] # Obs(ev), "C18.fill-dependent">>, <<~ev.guard, "C06.guard">> >>)
+
 MonDecode(m0, ev) ==
   LET m == [m0 EXCEPT !.ctr.k = @ + 1, !.ctr.calls = @ + 1] IN
   IF m.desync THEN m
@@ -131,7 +135,7 @@ MonDecode(m0, ev) ==
   IN
   IF ~repushOK \/ ~lastOK THEN [AddViols(m, <<"proto.driver">>) EXCEPT !.desync = TRUE]
   ELSE IF ev.read > Len(src) \/ ev.written > cap \/ ev.written # Len(ev.out) THEN
-       [AddViols(m, <<"C06.bounds">>) EXCEPT !.desync = TRUE]
+       [AddViols(m, <<"C06.bounds">> \o IndepTags(ev)) EXCEPT !.desync = TRUE]
   ELSE
   LET newb == IF Len(src) > Len(m.pend) THEN SubSeq(src, Len(m.pend) + 1, Len(src)) ELSE <<>>
       f1 == WFeed(cfg, m.w, newb, Len(m.pend))
@@ -145,10 +149,10 @@ MonDecode(m0, ev) ==
       Match(e, a) == e = a \/ (cfg.repl /\ a.k = "e" /\ e = ItemC(65533))
       prefixOK == n <= Len(avail1) /\ \A i \in 1..n : Match(emitted[i], avail1[i])
   IN
-  IF ~dec.ok THEN [AddViols(m, <<"C05.illformed">>) EXCEPT !.desync = TRUE]
+  IF ~dec.ok THEN [AddViols(m, <<"C05.illformed">> \o IndepTags(ev)) EXCEPT !.desync = TRUE]
   ELSE IF ~prefixOK THEN
        [AddViols(m, <<IF cfg.mode # "off" /\ m.ctr.total + ev.read <= 3 /\ ~m.wc.decided
-                      THEN "C10.prefix" ELSE "C02.prefix">>) EXCEPT !.desync = TRUE]
+                      THEN "C10.prefix" ELSE "C02.prefix">> \o IndepTags(ev)) EXCEPT !.desync = TRUE]
   ELSE
   LET popped == SubSeq(avail1, 1, n)
       rest == SubSeq(avail1, n + 1, Len(avail1))
